@@ -122,14 +122,7 @@ func init() {
 		Monitors:   world.MonitorsFor("C17"),
 		Nontrivial: func(r *world.Result) bool { return probe(r, "C17:") },
 	})
-	register(&PropDef{
-		ID: "C10",
-		Gen: func(t *rapid.T, tier string) *world.Plan {
-			return genPlan(t, genOpts{secondOp: true, maxCrashes: 1, maxNet: 1, sched: true, duration: []int{120, 300}})
-		},
-		Monitors:   world.MonitorsFor("C10"),
-		Nontrivial: func(r *world.Result) bool { return len(r.Swaps) >= 3 || probe(r, "C10:") },
-	})
+	// C10 is defined in defs3_test.go
 	register(&PropDef{
 		ID: "C09",
 		Gen: func(t *rapid.T, tier string) *world.Plan {
